@@ -9,4 +9,6 @@ CONSTANTS FullRank = 3
  I32Both = 1
  Budget = 5000
 INVARIANT AllRoutesRefineL1
+INVARIANT OneOverload
+INVARIANT AllOffered
 CHECK_DEADLOCK FALSE
